@@ -35,3 +35,19 @@ def t_net(p: float, s: float) -> float:
 
 def t_un(a: float) -> float:
     return a * 2.0
+
+
+# ---- functions that read module state (the value is part of the function's meaning at the time it is translated) ----
+KSAT = 1.75
+
+
+class Settings:
+    gain = 2.0
+
+
+def t_modconst(s: float, k: float) -> float:
+    return k * s / (KSAT + s)
+
+
+def t_modattr(s: float, k: float) -> float:
+    return Settings.gain * k * s
